@@ -747,3 +747,41 @@ func (w *World) returnedDynTypes(fn *ssa.Function, idx int, depth int, out map[s
 func (w *World) qual(p *types.Package) string { return w.shortPkg(p) }
 
 func (w *World) typeStr(t types.Type) string { return types.TypeString(t, w.qual) }
+
+// intEdgeFilter: feasibility of branch edges when integer value v equals k.
+func intEdgeFilter(v ssa.Value, k int64) func(b *ssa.BasicBlock, succ int) bool {
+	return func(b *ssa.BasicBlock, succ int) bool {
+		c, truth, ok := edgeAssertion(b, succ)
+		if !ok {
+			return true
+		}
+		bo, isB := c.(*ssa.BinOp)
+		if !isB || (bo.Op != token.EQL && bo.Op != token.NEQ) {
+			return true
+		}
+		var other ssa.Value
+		if sameValue(bo.X, v) {
+			other = bo.Y
+		} else if sameValue(bo.Y, v) {
+			other = bo.X
+		} else {
+			return true
+		}
+		cv, isC := intConst(other)
+		if !isC {
+			return true
+		}
+		holds := (cv == k) == (bo.Op == token.EQL)
+		return holds == truth
+	}
+}
+
+// isDynCallOfField: in is a call of a function value loaded from field f (e.g. c.ErrorHandler(err)).
+func isDynCallOfField(in ssa.Instruction, f *types.Var) bool {
+	c := asCall(in)
+	if c == nil || c.Common().IsInvoke() {
+		return false
+	}
+	lf, _ := loadedField(c.Common().Value)
+	return lf == f
+}
